@@ -18,6 +18,7 @@ import (
 	"strconv"
 	"strings"
 	"sync"
+	"sync/atomic"
 	"syscall"
 	"time"
 )
@@ -73,6 +74,8 @@ type finding struct {
 	Commit    string `json:"commit,omitempty"`
 }
 
+var stop atomic.Bool
+
 type caseOut struct {
 	idx int
 	res result
@@ -121,7 +124,19 @@ func main() {
 	}
 
 	child := filepath.Join(work, "vchild")
-	b := exec.Command("go", "build", "-race", "-tags", "verif", "-o", child, "./cmd/vchild")
+	buildArgs := []string{"build", "-race", "-tags", "verif"}
+	if repo := os.Getenv("VERIF_REPO"); repo != "" && repo != "/repo" {
+		// sensitivity testing against a scratch copy/worktree of the repository: same harness, other replace target
+		gm, _ := os.ReadFile(filepath.Join(verifDir, "harness", "go.mod"))
+		gs, _ := os.ReadFile(filepath.Join(verifDir, "harness", "go.sum"))
+		gm = bytes.Replace(gm, []byte("=> /repo"), []byte("=> "+repo), 1)
+		os.WriteFile(filepath.Join(work, "go.mod"), gm, 0o644)
+		os.WriteFile(filepath.Join(work, "go.sum"), gs, 0o644)
+		buildArgs = append(buildArgs, "-modfile="+filepath.Join(work, "go.mod"))
+		fmt.Printf("NOTE: building against VERIF_REPO=%s instead of /repo\n", repo)
+	}
+	buildArgs = append(buildArgs, "-o", child, "./cmd/vchild")
+	b := exec.Command("go", buildArgs...)
 	b.Dir = filepath.Join(verifDir, "harness")
 	b.Env = env()
 	if out, err := b.CombinedOutput(); err != nil {
@@ -160,14 +175,67 @@ func main() {
 
 	var mu sync.Mutex
 	results := map[int]caseOut{}
+	deadline := time.Now().Add(20 * time.Minute)
+	if *tier == "thorough" {
+		deadline = time.Now().Add(90 * time.Minute)
+	}
+	abort := func() bool {
+		if stop.Load() {
+			return true
+		}
+		if time.Now().After(deadline) {
+			stop.Store(true)
+			return true
+		}
+		mu.Lock()
+		n := 0
+		for _, c := range results {
+			if c.res.Verdict == "violated" {
+				n++
+			}
+		}
+		mu.Unlock()
+		if n >= 12 {
+			stop.Store(true)
+			return true
+		}
+		return false
+	}
 	var crashes []string
 	var wg sync.WaitGroup
+	watchDone := make(chan struct{})
+	go func() {
+		// early stop: count violations in the out files while the children run
+		tk := time.NewTicker(3 * time.Second)
+		defer tk.Stop()
+		for {
+			select {
+			case <-watchDone:
+				return
+			case <-tk.C:
+				files, _ := filepath.Glob(filepath.Join(work, "out.*.jsonl"))
+				n := 0
+				for _, f := range files {
+					cs, _, _ := readOut(f)
+					for _, c := range cs {
+						if c.res.Verdict == "violated" {
+							n++
+						}
+					}
+				}
+				if n >= 12 || time.Now().After(deadline) {
+					stop.Store(true)
+					return
+				}
+			}
+		}
+	}()
 	for s := 0; s < ns; s++ {
 		wg.Add(1)
 		go func(s int) {
 			defer wg.Done()
 			start := 0
-			for attempt := 0; attempt < 200; attempt++ {
+			for attempt := 0; attempt < 200 && !abort(); attempt++ {
 				outF := filepath.Join(work, fmt.Sprintf("out.%d.%d.jsonl", s, attempt))
 				errF := filepath.Join(work, fmt.Sprintf("err.%d.%d.txt", s, attempt))
 				done, lastBegun, cs := runShard(child, *prop, *tier, seed, s, ns, start, outF, errF, filepath.Join(work, fmt.Sprintf("race.%d", s)))
@@ -176,7 +244,7 @@ func main() {
 					results[c.idx] = c
 				}
 				mu.Unlock()
-				if done {
+				if done || stop.Load() {
 					return
 				}
 				// the child died or hung inside case lastBegun
@@ -197,6 +265,8 @@ func main() {
 		}(s)
 	}
 	wg.Wait()
+	close(watchDone)
+	stoppedEarly := stop.Load()
 
 	// re-run inconclusive cases once, alone
 	var idxs []int
@@ -208,7 +278,7 @@ func main() {
 	sort.Ints(idxs)
 	rerun := 0
 	for _, i := range idxs {
-		if rerun >= 40 {
+		if rerun >= 40 || stoppedEarly {
 			break
 		}
 		rerun++
@@ -308,6 +378,9 @@ func main() {
 		code = 1
 	} else if harnessErr > 0 {
 		code = 2
+	} else if stoppedEarly {
+		fmt.Println("HARNESS-ERROR: run exceeded its overall time limit before all cases were judged")
+		code = 2
 	} else if len(results) == 0 || dn < 2 {
 		fmt.Println("HARNESS-ERROR: the monitors observed nothing non-trivial")
 		code = 2
@@ -400,13 +473,14 @@ func runChild(bin string, args []string, errF, raceLog, outF string) {
 	c.Env = append(env(), "GORACE=halt_on_error=0 log_path="+raceLog+" history_size=3")
 	c.Stdout = ef
 	c.Stderr = ef
+	c.SysProcAttr = &syscall.SysProcAttr{Pdeathsig: syscall.SIGKILL}
 	if err := c.Start(); err != nil {
 		fmt.Fprintf(ef, "start failed: %v\n", err)
 		return
 	}
 	doneCh := make(chan struct{})
 	go func() { c.Wait(); close(doneCh) }()
-	stallLimit := 300 * time.Second
+	stallLimit := 150 * time.Second
 	lastSize := int64(-1)
 	lastChange := time.Now()
 	tk := time.NewTicker(2 * time.Second)
@@ -416,6 +490,11 @@ func runChild(bin string, args []string, errF, raceLog, outF string) {
 		case <-doneCh:
 			return
 		case <-tk.C:
+			if stop.Load() {
+				c.Process.Kill()
+				<-doneCh
+				return
+			}
 			var sz int64
 			if st, err := os.Stat(outF); err == nil {
 				sz = st.Size()
